@@ -16,6 +16,7 @@ const char *kNames[F_NUM_KINDS] = {"trunc",  "setbyte", "set32", "varint",
 // small number, ceil(2^32 / m) for the multipliers decoders use (3 indices per
 // face, 4/8/12 bytes per entry, 5 descriptor bytes per attribute). A guard of
 // the form "m * count > remaining" accepts exactly these.
+constexpr int kNumSetByte = 14;
 constexpr int kNumSet32 = 11;
 const uint32_t kSet32[kNumSet32] = {0u,          1u,          0x7FFFFFFFu, 0x80000000u,
                                     0xFFFFFFFFu, 0x00FFFFFFu, 0x55555556u, 0x40000000u,
@@ -120,6 +121,17 @@ int ApplyFaults(const std::vector<FaultOp> &ops, std::vector<uint8_t> *bytes) {
             break;
           case 6:
             b ^= 0x7F;
+            break;
+          case 7:
+          case 8:
+          case 9:
+          case 10:
+          case 11:
+          case 12:
+          case 13:
+            // Small enumerators: type, method, transform, data type and
+            // component count bytes take values 0..7.
+            b = static_cast<uint8_t>(op.b - 6);
             break;
           default:
             b = static_cast<uint8_t>(op.c);
@@ -247,7 +259,7 @@ int ApplyFaults(const std::vector<FaultOp> &ops, std::vector<uint8_t> *bytes) {
 EnumCounts EnumCount(size_t len) {
   EnumCounts c;
   c.trunc = len;
-  c.setbyte = len * 7;
+  c.setbyte = len * kNumSetByte;
   c.set32 = len * kNumSet32;
   c.varint = len * (kNumVarint + 1) * 2;
   c.header = len >= 11 ? kHeaderCount : 0;
@@ -265,8 +277,8 @@ FaultOp EnumOp(size_t len, uint64_t j) {
   j -= c.trunc;
   if (j < c.setbyte) {
     op.kind = F_SETBYTE;
-    op.a = static_cast<int64_t>(j / 7);
-    op.b = static_cast<int64_t>(j % 7);
+    op.a = static_cast<int64_t>(j / kNumSetByte);
+    op.b = static_cast<int64_t>(j % kNumSetByte);
     return op;
   }
   j -= c.setbyte;
@@ -331,7 +343,7 @@ std::vector<FaultOp> RandomFaultPlan(
       case 1:
         op.kind = F_SETBYTE;
         op.a = off;
-        op.b = 7;
+        op.b = 14;
         op.c = static_cast<int64_t>(r.Below(256));
         break;
       case 2:
